@@ -138,12 +138,13 @@ CLAIMED = {
             "seconds wide) cannot be told apart by any RFC 9557 text and are skipped.",
             "TLA+ text reader + zone semantics evaluated by TLC over implementation traces", "DESIGN.md §5 C09"),
     "C15": ("model_checking",
-            "Trace_Dur.tla contains an independent ISO 8601 duration reader (byte values -> BigInt unit values) and the "
+            "Trace_Dur.tla contains an independent ISO 8601 duration reader (byte values -> BigInt unit values), Friendly.tla an "
+            "independent reader of the friendly format, and the "
             "documented relations between a value and its friendly-format round trip per printer configuration; TLC "
             "evaluates them on every printed span and duration: ISO text must denote the original, friendly text must be "
             "accepted by the parser under every configuration, identical for lossless configurations, within one unit of the "
             "last printed digit otherwise.",
-            "No independent reader for the friendly format. Known finding D12 (i64::MIN seconds) is listed in KNOWN_FINDINGS.txt.",
+            "The friendly texts are read by the independent reader Friendly.tla (documented grammar). Known finding D12 (i64::MIN seconds) is listed in KNOWN_FINDINGS.txt.",
             "TLA+ text reader and round-trip relations evaluated by TLC over implementation traces", "DESIGN.md §5 C15"),
     "C16": ("model_checking",
             "Strtime.tla defines, from Calendar.tla / Instant.tla alone, the text of every conversion specifier as POSIX "
